@@ -227,6 +227,8 @@ MarkPlacements(v) ==
   {WithMk(v, m) : m \in MarkSets}
   \cup MarkNested(v, <<"m2">>)
   \cup {WithMk(w, <<"m1">>) : w \in MarkNested(v, <<"m2">>)}
+  \* the SAME mark on two nested members (in the same or in sibling containers)
+  \cup TakeN(UNION {MarkNested(w, <<"m2">>) : w \in MarkNested(v, <<"m2">>)}, 6)
   \* two nested members carrying different marks under an unmarked top level
   \cup TakeN(UNION {MarkNested(w, <<"m1">>) : w \in MarkNested(v, <<"m2">>)}, 8)
 
